@@ -244,7 +244,9 @@ class DiagnosticsRenderer:
             span = to_span(diag.span)
             level = self.level_str(diag.level)
             all_spans = [span] + [
-                to_span(child.span) for child in diag.children if child.span
+                to_span(child.span)
+                for child in diag.children
+                if child.span is not None
             ]
             max_lineno = max(s.end.line for s in all_spans)
             self.buffer.append(f"{level}: {diag.rendered_title} (at {span.start})")
@@ -257,7 +259,7 @@ class DiagnosticsRenderer:
             )
             # First render all sub-diagnostics that come with a span
             for sub_diag in diag.children:
-                if sub_diag.span:
+                if sub_diag.span is not None:
                     self.render_snippet(
                         to_span(sub_diag.span),
                         sub_diag.rendered_span_label,
